@@ -57,7 +57,7 @@ func VerifH_C03_archiver_workers() {
 	in := make(chan *models.Item, 1)
 	outCap := verifrt.Choice("downstream-capacity", 2)
 	out := make(chan *models.Item, outCap)
-	stuck := false
+	stuck, late := false, false
 	a := &archiver{ctx: ctx, cancel: cancel, inputCh: in, outputCh: out}
 	n := 1 + verifrt.Choice("workers-1", 2)
 	for i := 0; i < n; i++ {
@@ -78,6 +78,14 @@ func VerifH_C03_archiver_workers() {
 		pause.Pause("verif")
 		verifrt.Settle()
 		verifrt.Cover("stop-while-paused")
+		if !stuck {
+			verifrt.Quiesce() // every idle worker has seen the pause and waits to acknowledge it
+			l := models.NewItem("late", &models.URL{Raw: "http://x.example/late"}, "")
+			l.SetStatus(models.ItemCompleted)
+			in <- l // work arrives while the stage is paused
+			late = true
+			verifrt.Cover("work-arrives-while-paused")
+		}
 	case 2:
 		if stuck {
 			return // Resume legitimately waits for a worker that is stuck on a consumer that never reads: not a stop scenario
@@ -90,4 +98,7 @@ func VerifH_C03_archiver_workers() {
 	a.cancel()
 	a.wg.Wait()
 	verifrt.Cover("stopped")
+	if late {
+		verifrt.Assert(len(in) == 1, "C14 a paused worker takes no work, also when its stage is stopped while paused")
+	}
 }
